@@ -72,6 +72,11 @@ def run(ctx):
     for _ in range(800 if ctx.quick else 60000):
         uni = persist.random_universe(rng)
         cases.append({"uni": uni, "hist": persist.pipeline_history(rng, uni), "seed": 1000 + ctx.seed, "sampled": True})
+    # directed family: a region covering the whole ring from a seam that is not the origin (start == end)
+    ring_rng = random.Random(ctx.seed + 7919)
+    for _ in range(60 if ctx.quick else 3000):
+        uni = persist.whole_ring_universe(ring_rng)
+        cases.append({"uni": uni, "hist": persist.pipeline_history(ring_rng, uni), "seed": 1000 + ctx.seed, "sampled": True})
     for idx, case in enumerate(cases):
         case["id"] = idx
     samples, skipped, regions_seen = [], {}, 0
